@@ -94,6 +94,7 @@ def _one(ctx, text):
     from dep_logic.specifiers import BaseSpecifier, InvalidSpecifier, from_specifierset, parse_version_specifier
 
     ctx.evaluations += 1
+    shown = text if len(text) <= 300 else text[:200] + f" ...[{len(text)} chars, {text.count('||') + 1} alternatives]"
     parts = text.split("||") if "||" in text else [text]
     pk = []
     valid = True
@@ -120,9 +121,9 @@ def _one(ctx, text):
         bump("accept-valid")
         if got != "ok":
             violation(PROP, "parse_version_specifier", "rejects a specifier set that packaging accepts",
-                      {"text": text, "outcome": got, "group": got.split(":")[0]})
+                      {"text": shown, "outcome": got, "group": got.split(":")[0]})
         elif not isinstance(r, BaseSpecifier):
-            violation(PROP, "parse_version_specifier", "returned a non-specifier", {"text": text, "result": repr(r)})
+            violation(PROP, "parse_version_specifier", "returned a non-specifier", {"text": shown, "result": repr(r)[:200]})
         for p in pk:
             if p is None:
                 continue
@@ -139,7 +140,7 @@ def _one(ctx, text):
         if got != "invalid":
             violation(PROP, "parse_version_specifier",
                       "does not raise InvalidSpecifier for a string packaging rejects",
-                      {"text": text, "outcome": got, "group": got.split(":")[0]})
+                      {"text": shown, "outcome": got, "group": got.split(":")[0]})
     return valid
 
 
@@ -153,6 +154,19 @@ def run(ctx):
         ctx.current_case = {"kind": "text", "text": t}
         _one(ctx, t)
         ctx.cases += 1
+    # stress: very long || chains (valid, and with one invalid alternative somewhere inside)
+    if ctx.shard == 0:
+        for length in ((60, 400, 1200, 2500) if ctx.tier == "quick" else (60, 400, 1200, 2500, 6000)):
+            alts = [f"=={k}.{k % 7}" if k % 3 else f">={k},<{k}.5" for k in range(length)]
+            for bad_at in (None, length // 2, length - 1, 0):
+                parts = list(alts)
+                if bad_at is not None:
+                    parts[bad_at] = "=>1.0"
+                text = "||".join(parts)
+                ctx.cases += 1
+                ctx.current_case = {"kind": "long-chain", "length": length, "bad_at": bad_at}
+                ok, _ = ctx.guarded(120.0, _one, ctx, text)
+                ctx.shape("long-chain")
     for i in range(n):
         k = rnd.choice([1, 1, 2, 3])
         clauses = [_clause(ctx, rnd) for _ in range(k)]
@@ -186,4 +200,10 @@ def run(ctx):
 
 
 def replay(ctx, case):
+    if case.get("kind") == "long-chain":
+        alts = [f"=={k}.{k % 7}" if k % 3 else f">={k},<{k}.5" for k in range(case["length"])]
+        if case["bad_at"] is not None:
+            alts[case["bad_at"]] = "=>1.0"
+        _one(ctx, "||".join(alts))
+        return
     _one(ctx, case["text"])
